@@ -54,7 +54,7 @@ COMMON = re.compile(
     "    )?"
     ")?"
     "$",
-    re.VERBOSE,
+    re.VERBOSE | re.ASCII,
 )
 
 DEFAULT_OPTIONS = {
